@@ -176,6 +176,8 @@ def run(ctx):
 
     # ---- 3. archives rewritten into older layouts load to the same object ---------------------------------
     downgraded = 0
+    inproc = {}
+    order_items = []
     for name, obj, data in dumps_:
         schema, names = ioarch.read_schema(data)
         with zipfile.ZipFile(io.BytesIO(data)) as z:
@@ -190,6 +192,9 @@ def run(ctx):
                 err = None
             except Exception as ex:
                 got, err = None, type(ex).__name__
+            inproc[f"{name}@{target}"] = err or "ok"
+            if name != "method":
+                order_items.append((name, target, d2))
             v0gen = target == 0 and any(c[0] == "RandomGeneratorNode" for c in changed)
             if err is not None:
                 msg = f"old-archive-fails: {name} rewritten to protocol {target} ({[c[0] for c in changed]}) raised {err}"
@@ -204,6 +209,21 @@ def run(ctx):
             if d:
                 ofails.append((f"old-archive-differs: {name} rewritten to protocol {target} loads to a different object: {d}",
                                dict(kind="downgrade", object=name, target=target, schema=s2, members=sorted(members))))
+    # ---- 4. the loader chosen does not depend on which protocols the process has seen before -------------------
+    orders = [[1, 0, PROTOCOL], [PROTOCOL, 1, 0], [1, PROTOCOL, 0], [0, 1, PROTOCOL]] if not ofails else []
+    for order, res in zip(orders, fresh_order_runs(order_items, orders)):
+        evaluations += len(res)
+        if "__error__" in res:
+            ofails.append((f"harness: fresh interpreter for order {order} failed: {res['__error__'][-300:]}", dict(kind="order", order=order)))
+            continue
+        for key, outcome in res.items():
+            if outcome != inproc.get(key):
+                if key.endswith("@0") and "gen" in key and outcome == "AttributeError":
+                    continue
+                ofails.append((f"order-dependent-loader: in a fresh process that loads protocols in the order {order}, {key} gives {outcome}; "
+                               f"in a process that has seen every protocol it gives {inproc.get(key)}",
+                               dict(kind="order", order=order, archive=key)))
+                break
     for k in set(ctx.known):
         f = next(f for f in findings if f["key"] == k)
         print(f"KNOWN-FINDING: property=C08 {k}: {f['what']}", flush=True)
@@ -218,6 +238,72 @@ def run(ctx):
         wall=round(time.time() - t0, 1))
 
 
+def fresh_order_runs(items, orders):
+    """each order in its own fresh interpreter: load every archive of the first protocol, then of the second, ...;
+    the outcome per archive is 'ok' (equal to the object loaded from the current-protocol archive), 'differs' or the exception class"""
+    import os
+    import pickle
+    import shutil
+    import subprocess
+    import sys
+    import tempfile
+
+    from ..common import VERIF
+
+    if not orders:
+        return []
+    d = tempfile.mkdtemp(prefix="verif-c08-")
+    try:
+        with open(os.path.join(d, "items.pkl"), "wb") as f:
+            pickle.dump(items, f)
+        procs = []
+        for i, order in enumerate(orders):
+            out = os.path.join(d, f"o{i}.json")
+            procs.append((out, subprocess.Popen([sys.executable, "-W", "ignore", "-m", "harness.props.c08", os.path.join(d, "items.pkl"),
+                                                 ",".join(map(str, order)), out], cwd=str(VERIF), env=dict(os.environ, PYTHONPATH=str(VERIF)),
+                                                stdout=subprocess.DEVNULL, stderr=subprocess.PIPE)))
+        results = []
+        for out, p in procs:
+            _, err = p.communicate()
+            if p.returncode != 0 or not os.path.exists(out):
+                results.append({"__error__": (err or b"").decode()})
+            else:
+                results.append(json.load(open(out)))
+        return results
+    finally:
+        shutil.rmtree(d, ignore_errors=True)
+
+
+def _order_main(argv):
+    import pickle
+    import sys
+
+    from ..common import VERIF
+
+    sys.path.insert(0, str(VERIF / "harness" / "canary"))
+    from skops.io import get_untrusted_types, loads
+    from skops.io._protocol import PROTOCOL
+
+    items = pickle.load(open(argv[0], "rb"))
+    order = [int(x) for x in argv[1].split(",")]
+    res, loaded = {}, {}
+    for proto in order:
+        for name, target, data in items:
+            if target != proto:
+                continue
+            try:
+                loaded[(name, target)] = loads(data, trusted=get_untrusted_types(data=data))
+                res[f"{name}@{target}"] = "ok"
+            except Exception as ex:
+                res[f"{name}@{target}"] = type(ex).__name__
+    for (name, target), obj in loaded.items():
+        ref = loaded.get((name, PROTOCOL))
+        if ref is not None and target != PROTOCOL and same(ref, obj):
+            res[f"{name}@{target}"] = "differs: " + same(ref, obj)
+    json.dump(res, open(argv[2], "w"))
+    return 0
+
+
 def replay(rep):
     print(json.dumps(rep, indent=1, default=str)[:3000])
     if rep.get("kind") in ("archive", "downgrade") and "schema" in rep:
@@ -227,3 +313,9 @@ def replay(rep):
         except Exception as ex:
             print("get_tree raised", type(ex).__name__, ex)
     return 1
+
+
+if __name__ == "__main__":
+    import sys
+
+    sys.exit(_order_main(sys.argv[1:]))
